@@ -1202,3 +1202,166 @@ Proof.
   split; [repeat constructor|]. split; [apply nodupb_sound; reflexivity|].
   split; [left; reflexivity|]. vm_compute. reflexivity.
 Qed.
+
+(** * A batch the policy can produce lists its inputs in label order
+
+    [segments.idx] lists the flushed segments in label order (crash-free runs), the
+    planner sorts the labels of one type and level and cuts the sorted list into
+    chunks: the inputs of a [batch_ok] batch are strictly increasing. *)
+
+Record IdxC (ix : list (N * list N)) (js : list job) (al : N) : Prop := {
+  x_sorted : StronglySorted N.lt (map fst ix);
+  x_lt : forall e, In e ix -> fst e < al;
+  x_job : forall e j, In e ix -> In j js -> if written (jstage j) then fst e <= jseg j else fst e < jseg j }.
+
+Definition Idx (s : shard) : Prop := IdxC (index s) (jobs s) (alloc0 s).
+
+Lemma idx_rotate ix js al m : IdxC ix js al -> IdxC ix (js ++ [mkJob al m StQueued]) (N.succ al).
+Proof.
+  intros [Xs Xl Xj]. split; [exact Xs | intros e He; apply Xl in He; lia|].
+  intros e j He Hj. apply in_app_iff in Hj as [Hj|[<-|[]]]; [exact (Xj e j He Hj)|].
+  cbn [jstage written jseg]. apply Xl, He.
+Qed.
+
+Lemma idx_adv ix j rest al st' :
+  IdxC ix (j :: rest) al -> (written st' = false -> written (jstage j) = false) ->
+  IdxC ix (mkJob (jseg j) (jevs j) st' :: rest) al.
+Proof.
+  intros [Xs Xl Xj] Hw. split; [exact Xs | exact Xl|].
+  intros e j0 He [<-|Hj0]; [|apply Xj; [exact He | right; exact Hj0]].
+  cbn [jstage jseg]. specialize (Xj e j He (or_introl eq_refl)).
+  destruct (written st') eqn:E.
+  - destruct (written (jstage j)); lia.
+  - rewrite (Hw eq_refl) in Xj. exact Xj.
+Qed.
+
+Lemma idx_index ix j rest al us :
+  IdxC ix (j :: rest) al -> written (jstage j) = false -> jseg j < al ->
+  (forall j', In j' rest -> jseg j < jseg j' /\ written (jstage j') = false) ->
+  IdxC (ix ++ [(jseg j, us)]) (mkJob (jseg j) (jevs j) StIndexed :: rest) al.
+Proof.
+  intros [Xs Xl Xj] Hw Hal Hrest. split.
+  - rewrite map_app. cbn [map fst]. apply ss_snoc; [exact Xs|].
+    intros y Hy. apply in_map_iff in Hy as (e & <- & He). specialize (Xj e j He (or_introl eq_refl)).
+    rewrite Hw in Xj. exact Xj.
+  - intros e He. apply in_app_iff in He as [He|[<-|[]]]; [auto | exact Hal].
+  - intros e j0 He Hj0. apply in_app_iff in He as [He|[<-|[]]]; cbn [fst].
+    + destruct Hj0 as [<-|Hj0]; [|apply Xj; [exact He | right; exact Hj0]].
+      cbn [jstage written jseg]. specialize (Xj e j He (or_introl eq_refl)). rewrite Hw in Xj. lia.
+    + destruct Hj0 as [<-|Hj0]; [cbn [jstage written jseg]; lia|].
+      destruct (Hrest j0 Hj0) as [H1 H2]. rewrite H2. exact H1.
+Qed.
+
+Lemma idx_done ix j rest al : IdxC ix (j :: rest) al -> IdxC ix rest al.
+Proof. intros [Xs Xl Xj]. split; auto. intros e j0 He Hj0. apply Xj; [exact He | right; exact Hj0]. Qed.
+
+Lemma idx_fw A s l : Inv A s -> Ord A s -> Idx s -> Idx (fw_step s l).
+Proof.
+  intros I O X. unfold fw_step. destruct (jobs s) as [|j rest] eqn:Hj; [exact X|].
+  assert (I' : InvC A (mem s) (passives s) (live s) (dirs s) (j :: rest) (alloc0 s)) by (rewrite <- Hj; exact I).
+  assert (O' : OrdC A (mem s) (passives s) (live s) (inflight s) (dirs s) (j :: rest)) by (rewrite <- Hj; exact O).
+  assert (X' : IdxC (index s) (j :: rest) (alloc0 s)) by (rewrite <- Hj; exact X).
+  destruct l; destruct (jstage j) eqn:Hst; try exact X.
+  - unfold Idx; cbn [index jobs alloc0]. apply idx_adv; [exact X' | rewrite Hst; reflexivity].
+  - exact X'.
+  - destruct (negb (memb u (uids_of (jevs j))) || dir_has_uid s (jseg j) u); [exact X | exact X'].
+  - destruct (is_empty (jevs j) || negb (forallb (dir_has_uid s (jseg j)) (uids_of (jevs j)))); [exact X|].
+    unfold Idx; cbn [index jobs alloc0]. apply idx_index; [exact X' | rewrite Hst; reflexivity | |].
+    + apply (i_jlt _ _ _ _ _ _ _ I'). left. reflexivity.
+    + intros j' Hj'. split.
+      * pose proof (o_js _ _ _ _ _ _ _ O') as Hs. cbn [map] in Hs. apply StronglySorted_inv in Hs as [_ Hs].
+        rewrite Forall_forall in Hs. apply Hs, in_map, Hj'.
+      * rewrite (i_tlq _ _ _ _ _ _ _ I' j' Hj'). reflexivity.
+  - destruct (is_empty (jevs j)); unfold set_jobs, Idx; cbn [index jobs alloc0];
+      (apply idx_adv; [exact X' | discriminate]).
+  - destruct (is_empty (jevs j)); unfold set_jobs, Idx; cbn [index jobs alloc0];
+      (apply idx_adv; [exact X' | discriminate]).
+  - destruct (is_empty (jevs j) || negb (id <? N.succ (jseg j))); [exact X | exact X'].
+  - destruct (is_empty (jevs j)); unfold set_jobs, Idx; cbn [index jobs alloc0];
+      (apply idx_adv; [exact X' | discriminate]).
+  - destruct (is_empty (jevs j)); [|exact X]. unfold Idx; cbn [index jobs alloc0]. eapply idx_done, X'.
+  - unfold Idx; cbn [index jobs alloc0]. eapply idx_done, X'.
+Qed.
+
+Lemma idx_run c ls : no_crash ls -> NoDup (map ek (applied ls)) -> Idx (run (init c) ls).
+Proof.
+  unfold no_crash. induction ls as [|l ls IH] using rev_ind; intros Hc Hk.
+  - unfold Idx, init. cbn [index jobs alloc0]. split; [constructor | intros e [] | intros e j []].
+  - rewrite forallb_app in Hc. apply andb_true_iff in Hc as [Hc Hl]. cbn [forallb] in Hl.
+    rewrite run_snoc. rewrite applied_app in Hk.
+    assert (Hk1 : NoDup (map ek (applied ls))).
+    { rewrite map_app in Hk. apply nodup_app in Hk as (Hk1 & _ & _). exact Hk1. }
+    pose proof (inv_run c ls Hc Hk1) as I. pose proof (ord_run c ls Hc Hk1) as O. specialize (IH Hc Hk1).
+    destruct l; cbn [is_crash negb andb] in Hl; try discriminate; cbn [step].
+    + unfold store. cbv zeta. destruct (cap _ <=? len _); [|exact IH].
+      unfold rotate, Idx. cbn [index jobs alloc0 mem]. apply idx_rotate, IH.
+    + unfold flush_cmd, rotate, Idx. cbn [index jobs alloc0]. apply idx_rotate, IH.
+    + unfold wal_write. destruct (walq _); exact IH.
+    + unfold wal_rotate. destruct (cap _ <=? wcnt _); exact IH.
+    + eapply idx_fw; eassumption.
+Qed.
+
+Lemma ss_subseq {A} (R : A -> A -> Prop) a b : Subseq a b -> StronglySorted R b -> StronglySorted R a.
+Proof.
+  intros H. induction H; intros Hs; [constructor | |]; apply StronglySorted_inv in Hs as [Hs Hx].
+  - auto.
+  - constructor; [auto|]. apply Forall_forall. intros y Hy. rewrite Forall_forall in Hx.
+    apply Hx. eapply Subseq_in; eassumption.
+Qed.
+
+Lemma sort_n_sorted_id l : StronglySorted N.lt l -> sort_n l = l.
+Proof.
+  unfold sort_n. induction l as [|x r IH]; cbn [fold_right]; intros Hs; [reflexivity|].
+  apply StronglySorted_inv in Hs as [Hs Hx]. rewrite (IH Hs).
+  destruct r as [|y r]; [reflexivity|]. cbn [insert_sorted]. apply Forall_inv in Hx.
+  destruct (N.leb_spec x y); [reflexivity | lia].
+Qed.
+
+Lemma list_eqb_eq a : forall b, list_eqb a b = true -> a = b.
+Proof.
+  induction a as [|x a IH]; intros [|y b]; cbn [list_eqb]; intros H; try discriminate; [reflexivity|].
+  apply andb_true_iff in H as [H1 H2]. apply N.eqb_eq in H1. rewrite H1, (IH b H2). reflexivity.
+Qed.
+
+Lemma chunks_fuel_subseq fuel k : forall l c, In c (chunks_fuel fuel k l) -> Subseq c l.
+Proof.
+  induction fuel as [|f IH]; intros l c H; cbn [chunks_fuel] in H; [destruct H|].
+  destruct l as [|x l]; [destruct H|]. rewrite <- (firstn_skipn k (x :: l)). destruct H as [<-|H].
+  - apply Subseq_app_r, Subseq_refl.
+  - apply Subseq_app_l, IH, H.
+Qed.
+
+Lemma batch_ok_sorted ix k b :
+  StronglySorted N.lt (map fst ix) -> batch_ok ix k b = true -> StronglySorted N.lt (b_inputs b).
+Proof.
+  intros Hs H. unfold batch_ok in H. destruct (b_inputs b) as [|i0 ins] eqn:Hin; [discriminate|].
+  rewrite !andb_true_iff in H. destruct H as ((((Hne & _) & Hpl) & _) & _).
+  destruct (b_uids b) as [|u us]; [discriminate|]. cbn [forallb] in Hpl. apply andb_true_iff in Hpl as [Hpl _].
+  apply existsb_exists in Hpl as (ch & Hch & E). apply list_eqb_eq in E. rewrite E.
+  assert (Hlab : StronglySorted N.lt (labels_of_uid ix (level_of i0) u)).
+  { unfold labels_of_uid.
+    assert (Hf : StronglySorted N.lt (map fst (filter (fun e => (level_of (fst e) =? level_of i0) && memb u (snd e)) ix))).
+    { eapply ss_subseq; [|exact Hs]. clear. induction ix as [|e r IH]; cbn [filter map]; [constructor|].
+      destruct (_ && _); cbn [map]; constructor; exact IH. }
+    rewrite (sort_n_sorted_id _ Hf). exact Hf. }
+  unfold planned_inputs in Hch. cbv zeta in Hch.
+  destruct (_ <? N.max _ _); [destruct Hch|]. destruct (_ <? k).
+  - destruct Hch as [<-|[]]. exact Hlab.
+  - apply filter_In in Hch as [Hch _]. unfold chunks in Hch. apply chunks_fuel_subseq in Hch.
+    eapply ss_subseq; eassumption.
+Qed.
+
+(** C04_order_if_stable on the model: after a batch the policy can produce, on any
+    crash-free state, the output directory holds the context's events of each merged
+    type in append order. *)
+Theorem compaction_output_in_order_planned : forall c0 k ls b u c,
+  no_crash ls -> NoDup (map ek (applied ls)) ->
+  let s := run (init c0) ls in
+  let s1 := crun s (batch_steps s b) in
+  batch_ok (index s) k b = true -> NoDup (b_uids b) -> In u (b_uids b) ->
+  Subseq (of_ctx c (of_uid u (Compaction.rows_of (dirs s1) (b_out b)))) (ctx_events ls u c).
+Proof.
+  intros c0 k ls b u c Hc Hk s s1 Hb Hn Hu.
+  apply compaction_output_in_order; try assumption.
+  eapply batch_ok_sorted; [|exact Hb]. apply (x_sorted _ _ _ (idx_run c0 ls Hc Hk)).
+Qed.
